@@ -1,0 +1,14 @@
+//go:build verif
+
+// Contracts for the vault application's transaction handlers (C08). Comment-only.
+package vault
+
+//@ import "github.com/oasisprotocol/oasis-core/go/consensus/cometbft/api"
+
+//@ ghost var GVaultAuthOK int
+
+//@ func Application.cancelAction
+//@   props C08
+//@   requires app != nil && ctx != nil && cancelAction != nil
+//@   precall vault/state\.MutableState\)\.(RemovePendingAction|SetVault)$ :: GVaultAuthOK > old(GVaultAuthOK)
+//@   note (C08) the vault state this handler writes through is created from the context BEFORE the handler opens its transaction context, so what is written through it is not rolled back by a failing return: the pending action is removed and the vault written only after the last check that can reject the cancellation - the action-specific authority check (Action.IsAuthorized answered true; counted) (seed C08_j removed the pending action first and checked the authority afterwards: a forbidden cancellation still deleted the action and its collected authorizations)
